@@ -250,6 +250,7 @@ Inductive wf_frames : list hmode -> Prop :=
 Definition not_main (m : hmode) : bool := match m with MMain => false | _ => true end.
 Definition is_hd (m : hmode) : bool := match m with MHeredoc => true | _ => false end.
 Definition cnt (f : hmode -> bool) (l : list hmode) : nat := length (filter f l).
+Arguments cnt : simpl never.
 
 (* retBraces has one entry per suspended template scanner; heredocs has one
    entry per heredoc scanner on the stack (including the current one) *)
@@ -260,27 +261,25 @@ Definition hinv (st : hstate) : Prop :=
 
 Lemma ident_cont_le : forall s skip acc, (ident_cont s skip acc <= acc + length s)%nat.
 Proof.
-  induction s as [|b r IH]; intros skip acc; simpl; [lia|].
+  induction s as [|b r IH]; intros skip acc; cbn [ident_cont length]; [lia|].
   destruct skip as [|k].
   - destruct (b =? 45); [specialize (IH O (S acc)); lia|].
-    destruct (id_continue_len (b :: r)) as [[|a]|]; try lia. specialize (IH a (S acc)). lia.
+    destruct (id_continue_len (b :: r)) as [[|a]|]; [lia| |lia]. specialize (IH a (S acc)). lia.
   - specialize (IH k (S acc)). lia.
 Qed.
 
 Lemma ident_len_le s : (ident_len s <= length s)%nat.
 Proof.
-  destruct s as [|b r]; simpl; [lia|].
+  destruct s as [|b r]; cbn [ident_len length]; [lia|].
   destruct (b =? 95); [pose proof (ident_cont_le r 0 1); lia|].
-  destruct (id_start_len (b :: r)) as [[|a]|]; try lia. pose proof (ident_cont_le r a 1). lia.
+  destruct (id_start_len (b :: r)) as [[|a]|]; [lia| |lia]. pose proof (ident_cont_le r a 1). lia.
 Qed.
 
 Lemma newline_len_le s : (newline_len s <= length s)%nat.
 Proof.
-  destruct s as [|a [|b r]]; simpl; try lia.
-  - destruct a as [|p|p]; try (simpl; lia). do 4 (destruct p as [p|p|]; try (simpl; lia)).
-  - destruct a as [|p|p]; try (simpl; lia).
-    do 4 (destruct p as [p|p|]; try (simpl; lia)).
-    destruct b as [|q|q]; try (simpl; lia). do 4 (destruct q as [q|q|]; try (simpl; lia)).
+  destruct s as [|a r]; cbn [newline_len length]; [lia|].
+  destruct (a =? 10); [lia|]. destruct (a =? 13); cbn [andb]; [|lia].
+  destruct r as [|b r']; cbn [starts_with length]; [lia|]. destruct (b =? 10); lia.
 Qed.
 
 Lemma ident_len_dash x : ident_len (45 :: x) = O.
@@ -296,60 +295,195 @@ Lemma heredoc_marker_some s n :
   m_heredoc_begin s = Some (n, n) -> exists m, heredoc_marker (firstn (Nat.max 1 n) s) = Some m.
 Proof.
   unfold m_heredoc_begin. destruct s as [|c0 [|c1 r]]; try discriminate.
-  destruct (c0 =? 60) eqn:E0; [apply Z.eqb_eq in E0; subst c0|
-    destruct c0 as [|p|p]; try discriminate; do 6 (destruct p as [p|p|]; try discriminate)].
-  destruct (c1 =? 60) eqn:E1; [apply Z.eqb_eq in E1; subst c1|
-    destruct c1 as [|p|p]; try discriminate; do 6 (destruct p as [p|p|]; try discriminate)].
-  intro H.
-  (* d and r1 *)
-  assert (Hd : exists d r1, (match r with 45 :: r' => (1%nat, r') | _ => (O, r) end) = (d, r1) /\
-            ((d = 1%nat /\ r = 45 :: r1) \/ (d = O /\ r = r1 /\ forall x, r <> 45 :: x))).
-  { destruct r as [|a r']; [exists O, []; split; [reflexivity|right; repeat split; intros x Hx; discriminate]|].
-    destruct (a =? 45) eqn:Ea.
-    - apply Z.eqb_eq in Ea. subst a. exists 1%nat, r'. split; [reflexivity|left; auto].
-    - exists O, (a :: r'). split.
-      + destruct a as [|p|p]; try reflexivity. do 6 (destruct p as [p|p|]; try reflexivity).
-        discriminate.
-      + right. repeat split. intros x Hx. inversion Hx; subst. discriminate. }
-  destruct Hd as (d & r1 & Hdr & Hcase). rewrite Hdr in H.
+  destruct ((c0 =? 60) && (c1 =? 60)) eqn:E01; [|discriminate].
+  apply andb_true_iff in E01. destruct E01 as [E0 E1]. apply Z.eqb_eq in E0, E1. subst c0 c1.
+  cbv zeta. set (d := if starts_with 45 r then 1%nat else O). set (r1 := skipn d r).
   destruct (ident_len r1) as [|k'] eqn:Ek; [discriminate|]. set (k := S k') in *.
   destruct (newline_len (skipn k r1)) as [|nl'] eqn:En; [discriminate|]. set (nl := S nl') in *.
-  unfold same in H. inversion H as [Hn]. clear H.
+  unfold same. intro H.
+  assert (Hn : n = (2 + d + k + nl)%nat) by (inversion H; reflexivity). clear H.
   pose proof (ident_len_le r1) as Hk. rewrite Ek in Hk. fold k in Hk.
   pose proof (newline_len_le (skipn k r1)) as Hnl. rewrite En in Hnl. fold nl in Hnl.
   rewrite skipn_length in Hnl.
-  assert (Hlen : (n <= length (60 :: 60 :: r))%nat).
-  { simpl length. destruct Hcase as [(-> & ->)|(-> & -> & _)]; simpl length; lia. }
-  set (b := firstn (Nat.max 1 n) (60 :: 60 :: r)).
-  assert (Hb : length b = n) by (unfold b; rewrite firstn_length; lia).
-  unfold heredoc_marker.
+  assert (Hr1 : length r1 = (length r - d)%nat) by (unfold r1; apply skipn_length).
+  assert (Hd : (d <= 1)%nat) by (unfold d; destruct (starts_with 45 r); lia).
+  assert (Hlen : (n <= S (S (length r)))%nat) by lia.
   assert (Hn4 : (n >= 4)%nat) by lia.
-  (* b = 60 :: 60 :: firstn (n-2) r *)
-  assert (Eb : b = 60 :: 60 :: firstn (n - 2) r).
-  { unfold b. replace (Nat.max 1 n) with (S (S (n - 2))) by lia. reflexivity. }
-  rewrite Eb. cbn [skipn].
+  replace (Nat.max 1 n) with (S (S (n - 2))) by lia. cbn [firstn].
+  unfold heredoc_marker. cbn [skipn].
   set (m0 := firstn (n - 2) r). assert (Hm0 : length m0 = (n - 2)%nat).
-  { unfold m0. rewrite firstn_length. simpl length in Hlen. lia. }
+  { unfold m0. rewrite firstn_length. lia. }
+  assert (Hne : m0 <> []) by (intro Hx; rewrite Hx in Hm0; simpl in Hm0; lia).
+  pose proof (app_removelast_last 0 Hne) as Hx.
   assert (Hrl : length (removelast m0) = (n - 3)%nat).
-  { destruct m0 as [|x m0'] eqn:Em; [simpl in Hm0; lia|].
-    rewrite <- Em. pose proof (app_removelast_last 0 (l := m0)) as Hx.
-    assert (m0 <> []) by (rewrite Em; discriminate). specialize (Hx H).
-    apply (f_equal (@length Z)) in Hx. rewrite app_length in Hx. simpl in Hx. rewrite Em in *. simpl in *. lia. }
+  { apply (f_equal (@length Z)) in Hx. rewrite app_length in Hx. simpl in Hx. lia. }
   destruct (removelast m0) as [|c m'] eqn:Erl; [simpl in Hrl; lia|].
-  destruct (c =? 45) eqn:Ec.
-  - (* the slice starts with '-': it must be the dash of <<- *)
-    apply Z.eqb_eq in Ec. subst c.
-    destruct m' as [|c2 m'']; [|eexists; reflexivity].
-    exfalso. simpl in Hrl.
-    destruct Hcase as [(Hd1 & Hr)|(Hd0 & Hr & Hnd)].
-    + subst d. lia.
-    + (* d = 0: r starts with 45, impossible for an identifier *)
-      assert (Hr45 : exists x, r = 45 :: x).
-      { unfold m0 in Erl. destruct r as [|a r']; [destruct (n - 2)%nat; discriminate|].
-        destruct (n - 2)%nat as [|q] eqn:Eq; [lia|]. cbn [firstn] in Erl.
-        destruct (firstn q r') eqn:Ef; cbn [removelast] in Erl.
-        - discriminate.
-        - inversion Erl. subst a. eexists; reflexivity. }
-      destruct Hr45 as (x & Hx). exact (Hnd x Hx).
-  - eexists; reflexivity.
+  destruct (c =? 45) eqn:Ec; [|eexists; reflexivity].
+  apply Z.eqb_eq in Ec. subst c.
+  destruct m' as [|c2 m'']; [|eexists; reflexivity].
+  exfalso. simpl in Hrl.
+  (* n = 4, so d = 0, k = 1, nl = 1: then r starts with '-' and ident_len r = 0 *)
+  assert (d = O) by lia. assert (Er1 : r1 = r) by (unfold r1; rewrite H; reflexivity).
+  assert (Hr45 : exists x, r = 45 :: x).
+  { assert (Hn2 : (n - 2 = 2)%nat) by lia. unfold m0 in Erl. rewrite Hn2 in Erl.
+    destruct r as [|a [|a' r'']]; [simpl in Hlen; lia|simpl in Hlen; lia|].
+    cbn [firstn removelast] in Erl. inversion Erl. eexists; reflexivity. }
+  destruct Hr45 as (x & Hr). rewrite Er1, Hr, ident_len_dash in Ek. discriminate.
+Qed.
+
+Lemma cnt_cons f m l : cnt f (m :: l) = ((if f m then 1 else 0) + cnt f l)%nat.
+Proof. unfold cnt. simpl. destruct (f m); reflexivity. Qed.
+
+Ltac inv_wf H := inversion H; subst; try match goal with
+  | Hx : _ = _ \/ _ = _ \/ _ = _ |- _ => destruct Hx as [Hx|[Hx|Hx]]; try discriminate Hx; try subst
+  end.
+
+Lemma act_keep (st : hstate) (e : emit) : hinv st -> exists e' st', Some (e, st) = Some (e', st') /\ hinv st'.
+Proof. intro H. exists e, st. split; [reflexivity|exact H]. Qed.
+
+Lemma act_self (st : hstate) s lk n : hinv st -> m_self s = Some (lk, n) ->
+  exists e st', a_self st (firstn (Nat.max 1 n) s) = Some (e, st') /\ hinv st'.
+Proof.
+  intros H Hm. unfold m_self in Hm. destruct s as [|c s']; [discriminate|].
+  destruct (existsb (Z.eqb c) self_chars); [|discriminate]. inversion Hm; subst.
+  simpl. exists (EOne c), st. split; [reflexivity|exact H].
+Qed.
+
+Lemma act_open_brace (st : hstate) b : hinv st ->
+  exists e st', a_open_brace st b = Some (e, st') /\ hinv st'.
+Proof.
+  intro H. unfold a_open_brace. eexists. eexists. split; [reflexivity|].
+  destruct st; exact H.
+Qed.
+
+Lemma act_begin_string (st : hstate) b : hinv st -> l_cur st = MMain ->
+  exists e st', a_begin_string st b = Some (e, st') /\ hinv st'.
+Proof.
+  intros (Hwf & Hret & Hhd) Hc. unfold a_begin_string. eexists. eexists. split; [reflexivity|].
+  destruct st as [cur stack br ret hd]. cbn in *. subst cur. unfold hinv. cbn.
+  repeat split.
+  - constructor. exact Hwf.
+  - rewrite cnt_cons. exact Hret.
+  - rewrite cnt_cons. exact Hhd.
+Qed.
+
+Lemma act_begin_heredoc (st : hstate) b m : hinv st -> l_cur st = MMain ->
+  heredoc_marker b = Some m ->
+  exists e st', a_begin_heredoc st b = Some (e, st') /\ hinv st'.
+Proof.
+  intros (Hwf & Hret & Hhd) Hc Hm. unfold a_begin_heredoc. rewrite Hm.
+  eexists. eexists. split; [reflexivity|].
+  destruct st as [cur stack br ret hd]. cbn in *. subst cur. unfold hinv. cbn.
+  repeat split.
+  - constructor. exact Hwf.
+  - rewrite cnt_cons. exact Hret.
+  - rewrite cnt_cons. cbn. rewrite Hhd. reflexivity.
+Qed.
+
+Lemma act_begin_tmpl (st : hstate) ty b : hinv st ->
+  (l_cur st = MString \/ l_cur st = MHeredoc \/ l_cur st = MBare) ->
+  exists e st', a_begin_tmpl ty st b = Some (e, st') /\ hinv st'.
+Proof.
+  intros (Hwf & Hret & Hhd) Hc. unfold a_begin_tmpl. eexists. eexists. split; [reflexivity|].
+  destruct st as [cur stack br ret hd]. cbn in *. unfold hinv.
+  assert (Hnm : not_main cur = true) by (destruct Hc as [-> | [-> | ->]]; reflexivity).
+  destruct hd as [|h hr]; cbn; (repeat split;
+    [constructor; assumption | rewrite cnt_cons, Hnm; cbn; rewrite Hret; reflexivity
+    | rewrite cnt_cons; exact Hhd]).
+Qed.
+
+Lemma act_end_string (st : hstate) b : hinv st -> l_cur st = MString ->
+  exists e st', a_end_string st b = Some (e, st') /\ hinv st'.
+Proof.
+  intros (Hwf & Hret & Hhd) Hc. destruct st as [cur stack br ret hd]. cbn in *. subst cur.
+  inv_wf Hwf. unfold a_end_string, fret. cbn. eexists. eexists. split; [reflexivity|].
+  unfold hinv. cbn. rewrite !cnt_cons in *. cbn in *. repeat split; assumption.
+Qed.
+
+Lemma act_close (st : hstate) ty b : hinv st -> l_cur st = MMain ->
+  exists e st', a_close ty st b = Some (e, st') /\ hinv st'.
+Proof.
+  intros (Hwf & Hret & Hhd) Hc. destruct st as [cur stack br ret hd]. cbn in *. subst cur.
+  unfold a_close, ret_matches. cbn. destruct ret as [|r0 ret']; cbn.
+  - eexists. eexists. split; [reflexivity|]. unfold hinv. cbn. repeat split; assumption.
+  - destruct (r0 =? br).
+    + destruct stack as [|t l]; [cbn in Hret; discriminate|].
+      inv_wf Hwf; unfold fret; cbn; (eexists; eexists; split; [reflexivity|]);
+        unfold hinv; cbn; rewrite !cnt_cons in *; cbn in *; (repeat split; [assumption|lia|assumption]).
+    + eexists. eexists. split; [reflexivity|]. unfold hinv. cbn. repeat split; assumption.
+Qed.
+
+Lemma act_heredoc_eol (st : hstate) b : hinv st -> l_cur st = MHeredoc ->
+  exists e st', a_heredoc_eol st b = Some (e, st') /\ hinv st'.
+Proof.
+  intros (Hwf & Hret & Hhd) Hc. destruct st as [cur stack br ret hd]. cbn in *. subst cur.
+  inv_wf Hwf. rewrite !cnt_cons in *. cbn in *.
+  destruct hd as [|top rest]; [discriminate|]. unfold a_heredoc_eol. cbn.
+  destruct (h_sol top && zlist_eqb (trim_space b) (h_marker top)).
+  - unfold fret. cbn. eexists. eexists. split; [reflexivity|]. unfold hinv. cbn.
+    rewrite !cnt_cons. cbn in *. repeat split; [assumption|assumption|lia].
+  - eexists. eexists. split; [reflexivity|]. unfold hinv. cbn. rewrite !cnt_cons. cbn in *.
+    repeat split; [constructor; assumption|assumption|assumption].
+Qed.
+
+Lemma act_heredoc_mid (st : hstate) b : hinv st -> l_cur st = MHeredoc ->
+  exists e st', a_heredoc_mid st b = Some (e, st') /\ hinv st'.
+Proof.
+  intros (Hwf & Hret & Hhd) Hc. destruct st as [cur stack br ret hd]. cbn in *. subst cur.
+  rewrite cnt_cons in Hhd. cbn in Hhd. destruct hd as [|top rest]; [discriminate|].
+  unfold a_heredoc_mid, set_top_sol. cbn. eexists. eexists. split; [reflexivity|].
+  unfold hinv. cbn. rewrite cnt_cons. cbn. repeat split; assumption.
+Qed.
+
+Lemma m_heredoc_begin_same s lk n : m_heredoc_begin s = Some (lk, n) -> lk = n.
+Proof.
+  unfold m_heredoc_begin. destruct s as [|c0 [|c1 r]]; try discriminate.
+  destruct ((c0 =? 60) && (c1 =? 60)); [|discriminate]. cbv zeta.
+  destruct (ident_len _); [discriminate|]. destruct (newline_len _); [discriminate|].
+  unfold same. intro H. inversion H. reflexivity.
+Qed.
+
+Lemma hcl_step_ok : forall (st : hstate) (r : hrule) s lk n,
+  hinv st -> In r (hcl_rules (l_cur st)) -> r_match r s = Some (lk, n) -> (0 < lk)%nat ->
+  exists e st', r_act r st (firstn (Nat.max 1 n) s) = Some (e, st') /\ hinv st'.
+Proof.
+  intros st r s lk n Hi Hin Hm _.
+  destruct (l_cur st) eqn:Hc; cbn [hcl_rules] in Hin;
+    unfold rules_main, rules_string, rules_heredoc, rules_bare, rules_ident_only, rule_spaces, R in Hin;
+    cbn [In] in Hin;
+    repeat (destruct Hin as [<-|Hin];
+      [ cbn [r_act r_match] in *; unfold a_tok, a_skip;
+        first [ apply act_keep; exact Hi
+              | eapply act_self; eassumption
+              | apply act_open_brace; exact Hi
+              | apply act_close; assumption
+              | apply act_begin_string; assumption
+              | (pose proof (m_heredoc_begin_same _ _ _ Hm); subst lk;
+                 destruct (heredoc_marker_some _ _ Hm) as (mk & Hmk);
+                 eapply act_begin_heredoc; eassumption)
+              | apply act_begin_tmpl; [exact Hi|tauto]
+              | apply act_end_string; assumption
+              | apply act_heredoc_eol; assumption
+              | apply act_heredoc_mid; assumption ]
+      |]);
+    destruct Hin.
+Qed.
+
+Lemma hinv_init (m0 : hmode) : m0 = MMain \/ m0 = MBare \/ m0 = MIdentOnly -> hinv (init_state m0).
+Proof.
+  intro H. unfold hinv, init_state. cbn. repeat split; [constructor; exact H|].
+  rewrite cnt_cons. destruct H as [-> | [-> | ->]]; reflexivity.
+Qed.
+
+(* For every input and each of the three entry scanners (LexConfig /
+   LexExpression: MMain, LexTemplate: MBare, ValidIdentifier: MIdentOnly) the
+   scan ends normally: no action panics, fuel suffices. Together with
+   hcl_tokens_tile the tiling statement therefore holds for EVERY input. *)
+Theorem hcl_scan_done : forall (entry : hmode) (data : list Z),
+  entry = MMain \/ entry = MBare \/ entry = MIdentOnly ->
+  exists its, hcl_scan entry data = (its, Done).
+Proof.
+  intros entry data He. unfold hcl_scan.
+  apply scan_done with (Inv := hinv); [|apply hinv_init; exact He].
+  intros st r s lk n Hi Hin Hm Hlk. eapply hcl_step_ok; eassumption.
 Qed.
